@@ -128,6 +128,13 @@ var c08CfgShared = world.Config{Pools: "[" +
 	poolJSON([]string{"10.0.1.0/24", "10.0.2.0/24"}, []string{"10.10.2.1~10.10.2.2"}, "10.10.0.0/16", "10.10.0.254", 0) + "]",
 	Nodes: []world.NodeSpec{{Name: "n1", IP: "10.0.1.11"}, {Name: "n2", IP: "10.0.2.11"}}}
 
+// c08CfgSharedDisjoint: one pod subnet again, but the two pools are reachable from different node subnets only; used with a
+// restart before the request (which pool a stored address belongs to is decided anew when the tables are rebuilt).
+var c08CfgSharedDisjoint = world.Config{Pools: "[" +
+	poolJSON([]string{"10.0.1.0/24"}, []string{"10.10.1.1~10.10.1.4"}, "10.10.0.0/16", "10.10.0.254", 0) + "," +
+	poolJSON([]string{"10.0.2.0/24"}, []string{"10.10.2.1~10.10.2.2"}, "10.10.0.0/16", "10.10.0.254", 0) + "]",
+	Nodes: []world.NodeSpec{{Name: "n1", IP: "10.0.1.11"}, {Name: "n2", IP: "10.0.2.11"}}}
+
 // menu of requested range lists (JSON arrays of range strings)
 var c08Menu = [][]string{
 	{"10.10.1.1"},              // single address
@@ -248,6 +255,7 @@ func c08Job(shard, nshards, maxK, maxBusy int) Job {
 					}
 					c08Case(r, name, c08Cfg, "", ips, pod, key, req, st, node)
 					c08Case(r, name, c08CfgShared, "shared-pod-subnet ", ips, pod, key, req, st, node)
+					c08Case(r, name, c08CfgSharedDisjoint, "shared-pod-subnet/disjoint-node-subnets after-restart ", ips, pod, key, req, st, node)
 				}
 			}
 		}
@@ -276,6 +284,11 @@ func c08Case(r *caseResult, scen string, cfg world.Config, cfgName string, ips [
 				w.Pending = nil // the notification has not arrived
 			}
 		}
+		if strings.Contains(cfgName, "after-restart") {
+			if err := w.Restart(); err != nil {
+				panic(err)
+			}
+		}
 		return w
 	}
 	// kube-scheduler only binds to a node the filter offered
@@ -290,6 +303,11 @@ func c08Case(r *caseResult, scen string, cfg world.Config, cfgName string, ips [
 	r.evals++
 	if ferr != nil || !okNode {
 		r.distinct[hashOf(desc, "filtered-out")] = true
+		// "is bound with exactly k IPs" also has a completeness side: a node from which every range can be served (by the IP the
+		// pod already holds in it, else by a free one) has to be offered
+		if ferr == nil && c08Servable(cfg, ips, st, req, node, strings.Contains(cfgName, "after-restart")) {
+			r.violate("C08", scen, fmt.Sprintf("k=%d", len(req)), "servable-node-not-offered", "filter", fmt.Sprintf("%s: every requested range can be served from %s, filter offered %v", desc, node, offered), []string{desc})
+		}
 		return
 	}
 	// fault-free run first to learn the number of API calls
@@ -350,6 +368,42 @@ func c08Case(r *caseResult, scen string, cfg world.Config, cfgName string, ips [
 		c08Check(r, scen, cfg, desc+fmt.Sprintf(" fault@%d(%s)", k, failed), "fault:"+failed, w, pod, key, req, node, before, err)
 		r.distinct[hashOf(desc, k, err == nil, ownedIPs(w, key))] = true
 	}
+}
+
+// c08Servable: every requested range has an IP routable from node that the pod holds already or, failing that, one the tables
+// show as free (a reservation the IPAM has not seen counts as free here: Filter cannot know better; after a restart the tables
+// have been rebuilt from the store and show it). A range in which the pod holds more than one IP is not judged.
+func c08Servable(cfg world.Config, ips []string, st []int, req []int, node string, reservationSeen bool) bool {
+	for _, ri := range req {
+		var own, free []string
+		for i, ip := range ips {
+			if !inRangeList(ip, c08Menu[ri]) {
+				continue
+			}
+			switch st[i] {
+			case 2:
+				own = append(own, ip)
+			case 0, 3:
+				if st[i] == 3 && reservationSeen {
+					continue
+				}
+				if routableNodes(cfg, ip)[node] {
+					free = append(free, ip)
+				}
+			}
+		}
+		switch {
+		case len(own) > 1:
+			return false
+		case len(own) == 1:
+			if !routableNodes(cfg, own[0])[node] {
+				return false
+			}
+		case len(free) == 0:
+			return false
+		}
+	}
+	return true
 }
 
 func stateStr(ips []string, st []int) string {
